@@ -5,6 +5,7 @@ from numpy.typing import NDArray
 from acryo.backend import Backend, AnyArray
 
 UPSAMPLE = 20
+_EPS = 1e-4
 
 
 def upsample(
@@ -49,10 +50,12 @@ def _create_mesh(
     _max_shifts = np.asarray(max_shifts, dtype=np.float32)
     left = -shifts - _max_shifts
     right = -shifts + _max_shifts
+    # NOTE: round the lower limit up and the upper limit down so that the refined
+    # shift never exceeds the maximum shifts (_EPS is for the float32 precision).
     local_shifts = [
         [
-            int(round(max(float(shiftl), -1.0) * UPSAMPLE)),
-            int(round(min(float(shiftr), 1.0) * UPSAMPLE)),
+            int(np.ceil(max(float(shiftl), -1.0) * UPSAMPLE - _EPS)),
+            int(np.floor(min(float(shiftr), 1.0) * UPSAMPLE + _EPS)),
         ]
         for shiftl, shiftr in zip(left, right)
     ]
